@@ -87,6 +87,20 @@ def all_atomic_sites(ctx, field):
 WAITERS = ('wait', 'wait_timeout', 'async_blocking_wait', 'poll')
 
 
+def infeasible_after_failed_cas(evs):
+    """in `wait`: once the CAS LOCKED -> LOCKED_STARVATION has FAILED the state is final (the only other writer is the peer,
+    and final states are absorbing), so a later re-read that finds it unfinished does not exist"""
+    failed = None
+    for e in evs:
+        if e.name == 'BR' and e.data['label'] in ('cas', 'res_is_ok', 'res_is_err'):
+            o = e.data['outcome']
+            if (e.data['label'] == 'cas' and o == 'Err') or (e.data['label'] == 'res_is_ok' and o == 'F') or (e.data['label'] == 'res_is_err' and o == 'T'):
+                failed = e.idx
+        if failed is not None and e.idx > failed and e.name == 'BR' and e.data['label'] == 'sig_done' and e.data['outcome'] == 'F':
+            return True
+    return False
+
+
 def rearm_write(ctx, key, m, op):
     """is this write to Signal.state a store of the constant LOCKED (and nothing else)?"""
     if m == 'store':
@@ -192,6 +206,8 @@ def g2(ctx):
             ctx.violate(SIGK + nm, None, 'anchor missing', sig='anchor')
             continue
         for p, evs in ret_paths(ctx, b):
+            if infeasible_after_failed_cas(evs):
+                continue
             ops = atomic_ops(p)
             if not ops:
                 ctx.violate(b.key, p, '%s returns without reading the state' % nm)
@@ -214,6 +230,10 @@ def g2(ctx):
             for fe, fo, fname in fences(p):
                 if fe.idx > last['ev'].idx and fo in ACQ and fname == 'std::sync::atomic::fence':
                     acquired = True
+            if not acquired and nm == 'wait_timeout' and r is not None and r[0] == 'const' and r[1] == 'bool' and r[2] == '0':
+                sd = [e for e in evs if e.name == 'BR' and e.data['label'] == 'sig_done' and e.raw.idx > last['ev'].idx]
+                if sd and sd[-1].data['outcome'] == 'F':
+                    acquired = True  # "not finished yet" at the deadline: nothing was published, there is nothing to order; the caller cancels or waits on
             if not acquired:
                 ctx.violate(b.key, p, '%s returns after a state read (%s %s) with neither acquire ordering nor a later acquire fence: the payload / waker written by the peer is not ordered before the return' % (
                     nm, last['m'], last['ords']), at=last['ev'].at, sig='waiter-acquire:' + p.signature()[-40:])
@@ -402,6 +422,8 @@ def g6(ctx):
             continue
         ctx.instance(b.key)
         for p, evs in ret_paths(ctx, b):
+            if nm == 'wait' and infeasible_after_failed_cas(evs):
+                continue
             ctx.oblige(1, sample='%s [%s] -> %s' % (nm, p.signature()[-50:], fmt(p.ret)))
             r = p.ret
             core = r
@@ -453,7 +475,8 @@ def g6(ctx):
                 # `now < until` false, `now >= until` true, `now > until` true, `now <= until` false all mean: expired
                 EXP = {('before_deadline', 'F'), ('late_ge', 'T'), ('late', 'T'), ('before_deadline_le', 'F')}
                 bd = [e for e in evs if e.name == 'BR' and e.data['label'] in ('before_deadline', 'late_ge', 'late', 'before_deadline_le')]
-                expired = bool(bd) and (bd[-1].data['label'], bd[-1].data['outcome']) in EXP and (not sd or bd[-1].idx > sd[-1].idx)
+                # (a last look at the state after the deadline test does not un-expire the deadline)
+                expired = bool(bd) and (bd[-1].data['label'], bd[-1].data['outcome']) in EXP
                 if not (done or expired):
                     ctx.violate(b.key, p, 'wait_timeout returns before the deadline without a final state')
                 if expired:
@@ -563,6 +586,17 @@ def g8(ctx):
             ctx.oblige(1, sample='is_terminated -> %s' % fmt(p.ret))
             r = p.ret
             ok = r is not None and r[0] == 'bin' and r[1] == 'Eq' and ((is_state_read(r[2]) and is_const(r[3], TERMINATED)) or (is_state_read(r[3]) and is_const(r[2], TERMINATED)))
+            lb_ = labels(evs)
+            if not ok and r is not None:
+                # decided by a range test first (`v < LOCKED`): then "finished and not UNLOCKED" is TERMINATED, "not finished" is false
+                if has(lb_, 'sig_done', 'T') and not has(lb_, 'sig_done', 'F'):
+                    inner = r[2] if r[0] == 'un' and r[1] == 'Not' else None
+                    if inner is not None and inner[0] == 'bin' and inner[1] == 'Eq' and ((is_state_read(inner[2]) and is_const(inner[3], UNLOCKED)) or (is_state_read(inner[3]) and is_const(inner[2], UNLOCKED))):
+                        ok = True
+                    if r[0] == 'bin' and r[1] == 'Ne' and ((is_state_read(r[2]) and is_const(r[3], UNLOCKED)) or (is_state_read(r[3]) and is_const(r[2], UNLOCKED))):
+                        ok = True
+                elif has(lb_, 'sig_done', 'F') and not has(lb_, 'sig_done', 'T') and r[0] == 'const' and r[1] == 'bool' and r[2] == '0':
+                    ok = True
             if not ok:
                 ctx.violate(b.key, p, 'is_terminated is not `state == TERMINATED` (a still-LOCKED or an UNLOCKED signal would be treated as terminated: the waiter leaves while listed / drops a value the receiver owns): %s' % fmt(r))
             ops = atomic_ops(p)
